@@ -190,11 +190,18 @@ def optObs (oc : OptConf) (o : OptSt) : OptObs :=
   { count := if oc.hasCount then some o.count else none,
     trace := match oc.momentum with | none => none | some _ => some o.trace }
 
+/-- `[refLoop pr 0 r, refLoop pr 1 r, …, refLoop pr n r]`, computed in one pass
+    (`refLoop pr (j+1) r = refStep pr (refLoop pr j r)` by definition) -/
+def refStates {Θ O G B V T P VS C : Type} (pr : Prog Θ O G B V T P VS C) :
+    Nat → Ref Θ O G V T P → List (Ref Θ O G V T P)
+  | 0, r => [r]
+  | n + 1, r => r :: refStates pr n (refStep pr r)
+
 /-- the trace of the textbook loop (`refLoop`) on the program, as plain data -/
 def Program.refTrace (pg : Program) (gens : List (List String)) : RefTrace :=
   let pr := pg.prog
-  let states := (List.range (pg.n + 1)).map (fun j =>
-    refLoop pr j (refInit pg.θ0 pg.opt0 0 : Ref Params OptSt Nat Val (List Val) Params))
+  let states := refStates pr pg.n
+    (refInit pg.θ0 pg.opt0 0 : Ref Params OptSt Nat Val (List Val) Params)
   let last := states.getLastD (refInit pg.θ0 pg.opt0 0)
   { n := pg.n,
     batches := (List.range pg.n).map (fun i => pg.batches.getD i ⟨[]⟩),
